@@ -166,7 +166,7 @@ func CheckC08(l *Lab, verifDir string) int {
 		stream = append(stream, streamOf(session[len(pre):])...)
 		for _, tr := range Transports() {
 			jobs = append(jobs, c08Job{name: fmt.Sprintf("huge-after-%d", len(pre)), cls: "unframeable-huge-length", syms: pre, stream: stream,
-				d: Delivery{MsgCuts: []int{len(streamOf(pre))}}, tr: tr, unframeable: true})
+				d: Delivery{MsgCuts: []int{len(streamOf(pre))}, NoFIN: true}, tr: tr, unframeable: true})
 		}
 	}
 	// canonical traces per (sequence, transport)
